@@ -1,7 +1,43 @@
 import Driver.C01
+import Driver.C02
+import Driver.C04
+import Driver.C05
+import Driver.C06
+import Driver.C07
+import Driver.C08
+import Driver.C09
+import Driver.C10
+import Driver.C11
+import Driver.C12
+import Driver.C13
+import Driver.C14
+import Driver.C15
+import Driver.C16
+import Driver.C17
+import Driver.C18
+import Driver.C19
+import Driver.C20
 
 def main (args : List String) : IO UInt32 := do
   let stdin ← IO.getStdin
   match args with
   | ["c01"] | ["c03"] => Driver.C01.main stdin; return 0
+  | ["c02"] => Driver.C02.main stdin; return 0
+  | ["c04"] => Driver.C04.main stdin; return 0
+  | ["c05"] => Driver.C05.main stdin; return 0
+  | ["c06"] => Driver.C06.main stdin; return 0
+  | ["c07"] => Driver.C07.main stdin; return 0
+  | ["c08"] => Driver.C08.main stdin; return 0
+  | ["c09"] => Driver.C09.main stdin; return 0
+  | ["c10"] => Driver.C10.main stdin; return 0
+  | ["c11"] => Driver.C11.main stdin; return 0
+  | ["c12"] => Driver.C12.main stdin; return 0
+  | ["c13"] => Driver.C13.main stdin; return 0
+  | ["c14"] => Driver.C14.main stdin; return 0
+  | ["c15"] => Driver.C15.main stdin; return 0
+  | ["c16"] => Driver.C16.main stdin; return 0
+  | ["c17"] => Driver.C17.main stdin; return 0
+  | ["c18"] => Driver.C18.main stdin; return 0
+  | ["c19"] => Driver.C19.main stdin; return 0
+  | ["c20"] => Driver.C20.main stdin; return 0
   | _ => IO.eprintln "usage: desdriver <prop> < transcript"; return 2
